@@ -16,7 +16,7 @@ use std::sync::atomic::{AtomicU64, Ordering};
 use std::sync::{Arc, Mutex};
 
 pub fn gen(r: &mut Rng, thorough: bool, count: Option<usize>) -> Vec<Value> {
-    let n = count.unwrap_or(if thorough { 600 } else { 36 });
+    let n = count.unwrap_or(if thorough { 3000 } else { 150 });
     let mut out = vec![];
     for id in 0..n {
         let workload = ["counter", "transfer", "tokens", "counter", "transfer", "profiles"][id % 6];
